@@ -34,9 +34,9 @@ type pipeConn struct {
 
 // Framing, when set before Connect, supplies the framing of the server end of every new
 // connection: GetNextMessage of the returned PlayerConn (built around the raw server end of the
-// pipe) replaces the verbatim copy below.  A harness that maps a white-box shim into package
-// acceptor (go test -overlay) sets it to the constructor of the REAL tcpPlayerConn, so that the
-// TCP acceptor's own stream reassembly is what the session's reader runs.
+// pipe) replaces the verbatim copy below.  The C02 harness sets it to a function that has the TCP
+// acceptor's real accept loop build its own PlayerConn around the pipe end (c02/rig_test.go), so
+// that the TCP acceptor's own stream reassembly is what the session's reader runs.
 var Framing func(net.Conn) acceptor.PlayerConn
 
 // Write blocks while the client "does not read" (Client.Stall), then writes.
@@ -142,7 +142,7 @@ type captureImpl struct {
 
 func (c *captureImpl) OnSessionCreate(s pi.IClientSession) {
 	if cs, ok := s.(*session.ClientSession); ok {
-		if f := reflect.ValueOf(cs).Elem().FieldByName("conn"); f.IsValid() && f.CanAddr() {
+		if f := sessionConnField(cs); f.IsValid() {
 			pc := *(*acceptor.PlayerConn)(unsafe.Pointer(f.UnsafeAddr()))
 			c.a.mu.Lock()
 			c.a.byConn[pc] = append(c.a.byConn[pc], cs)
@@ -150,6 +150,26 @@ func (c *captureImpl) OnSessionCreate(s pi.IClientSession) {
 		}
 	}
 	c.IClientSessionImpl.OnSessionCreate(s)
+}
+
+var playerConnType = reflect.TypeOf((*acceptor.PlayerConn)(nil)).Elem()
+
+// sessionConnField: the connection a ClientSession was built on = its ONE field of type
+// acceptor.PlayerConn, found by type (no unexported name: a rename of the field does not matter).
+// Panics if the session has not exactly one such field: every Accept would otherwise report its
+// connections as served by no session.
+func sessionConnField(cs *session.ClientSession) reflect.Value {
+	v := reflect.ValueOf(cs).Elem()
+	var hit []reflect.Value
+	for i := 0; i < v.NumField(); i++ {
+		if f := v.Field(i); f.Type() == playerConnType {
+			hit = append(hit, f)
+		}
+	}
+	if len(hit) != 1 {
+		panic("node: session.ClientSession has not exactly one field of type acceptor.PlayerConn")
+	}
+	return hit[0]
 }
 
 func (n *Node) acceptorOf(front string) *memAcceptor {
